@@ -150,6 +150,7 @@ def generate(rng, idx, tier, variant):
             op.update({'pos': rng.randrange(n), 'form': rng.choice([0, 1]), 'a': rng.choice([None] + list(range(n))), 'b': rng.choice([None] + list(range(n)))})
         elif kind == 'solve':
             opts = S.gen_opts(rng, False)
+            opts['max_iter'] = min(opts['max_iter'], 300)
             opts['offset'] = 0
             opts['failures'] = 'ignore'
             opts['errors'] = rng.choice(['raise', 'skip', 'ignore'])
